@@ -376,7 +376,7 @@ func (c *Conn) OpenUpstream(ctx context.Context, sessionID string, opts ...Upstr
 				if c.isClosed() {
 					return
 				}
-				if err := c.state.WaitUntil(ctx, connStatusConnected); err != nil {
+				if err := c.state.WaitUntilOrClosed(ctx, connStatusConnected); err != nil {
 					u.logger.Errorf(ctx, "failed to wait state in resume upstream: %+v", err)
 					return
 				}
@@ -535,7 +535,7 @@ func (c *Conn) OpenDownstream(ctx context.Context, filters []*message.Downstream
 					return
 				}
 				c.logger.Infof(ctx, "Wait until connected... downstreamID:[%s]", down.ID)
-				if err := c.state.WaitUntil(ctx, connStatusConnected); err != nil {
+				if err := c.state.WaitUntilOrClosed(ctx, connStatusConnected); err != nil {
 					down.logger.Errorf(ctx, "Failed to wait state in resume downstream: %+v", err)
 					return
 				}
